@@ -25,7 +25,7 @@ CHECK = {
       G('addr4', 'base', 'naddr=4'),
       G('addr5-d8', 'base', 'naddr=5', 'depth=8'),
       G('addr3-asan', 'asan', 'naddr=3'),
-      G('addr4-B', 'base', 'naddr=4', 'residues=B'), G('addr3-temps2', 'base', 'naddr=3', 'temps=2'),
+      G('addr4-B', 'base', 'naddr=4', 'residues=B'), G('addr3-temps2', 'base', 'naddr=3', 'temps=2'), G('addr3-keep', 'base', 'naddr=3', 'keep=1'),
       G('ladder', 'base', 'mode=ladder', 'ladder_n=250'),
       G('ladder-asan', 'asan', 'mode=ladder', 'ladder_n=120'),
     ],
